@@ -21,7 +21,8 @@ static int g_io_calls, g_io_rc, g_io_err, g_io_errno;  /* SSL_read/SSL_write */
 static bool g_io_was_write;
 static const void *g_app_buf; static size_t g_app_len;
 static int g_last_rc, g_last_err;                     /* what SSL_get_error must report for the last call */
-static bool g_err_queue;                              /* ERR_peek_error() != 0 */
+static bool g_err_queue;                              /* ERR_peek_error() != 0 at the time the failing call returned */
+static int g_errq;                                    /* the thread's OpenSSL error queue: number of entries now */
 static bool g_has_pending;
 static bool g_peer_cert_present; static long g_verify_result;
 static int g_x509_free_calls, g_peer_cert_gets;
@@ -41,7 +42,12 @@ static void nd_ssl_outcome(int *rc, int *err, int *en, bool io, size_t len)
 	{ static const int es[] = { 0, EPIPE, ECONNRESET, ETIMEDOUT, EHOSTUNREACH, ENETUNREACH, EINPROGRESS }; *en = es[nd_range(0, 6)]; }
 	break;
     }
-    g_err_queue = nd_bool();
+    /* OPENSSL contract, error queue: a failing call pushes its reasons onto the THREAD's error queue - always for SSL_ERROR_SSL,
+       sometimes for SSL_ERROR_SYSCALL - and SSL_get_error() of ANY later call on ANY connection of the thread reports
+       SSL_ERROR_SSL while entries are left ("the error queue must be empty before the I/O operation is attempted") */
+    if (*err == SSL_ERROR_SSL) g_errq += 1 + (nd_bool() ? 1 : 0);
+    else if (*err == SSL_ERROR_SYSCALL && *rc < 0 && nd_bool()) g_errq += 1;     /* (ret == 0 with SSL_ERROR_SYSCALL is the bare EOF of pre-3.0 OpenSSL: nothing queued) */
+    g_err_queue = g_errq != 0;
 }
 static int handshake(SSL *ssl, bool client)
 {
@@ -77,7 +83,7 @@ static int ssl_io(SSL *ssl, const void *buf, size_t len, bool write)
 int SSL_write(SSL *ssl, const void *buf, int num) { return ssl_io(ssl, buf, (size_t)num, true); }
 int SSL_read(SSL *ssl, void *buf, int num) { return ssl_io(ssl, buf, (size_t)num, false); }
 int SSL_get_error(const SSL *ssl, int ret) { CHECK(ssl == THE_SSL && ret == g_last_rc, "C06: SSL_get_error asked about the call that just failed"); return g_last_err; }
-unsigned long ERR_peek_error(void) { return g_err_queue ? 1 : 0; }
+unsigned long ERR_peek_error(void) { return g_errq != 0 ? 1 : 0; }
 int SSL_has_pending(const SSL *ssl) { (void)ssl; return g_has_pending; }
 X509 *SSL_get1_peer_certificate(const SSL *ssl) { (void)ssl; g_peer_cert_gets++; return g_peer_cert_present ? (X509 *)&x509_token : NULL; }
 long SSL_get_verify_result(const SSL *ssl) { (void)ssl; return g_verify_result; }
@@ -104,7 +110,7 @@ int xpoll_get_fd(struct xpoll *x) { (void)x; return 9; }
 void xcm_tp_register(const char *n, const struct xcm_tp_ops *o) { (void)n; (void)o; }
 void ctx_store_init(void) { }
 /* error-stack formatting for the (disabled) debug log; note: the real one drains OpenSSL's error queue */
-void log_tls_get_error_stack(char *buf, size_t capacity) { if (capacity > 0) buf[0] = 0; }
+void log_tls_get_error_stack(char *buf, size_t capacity) { if (capacity > 0) buf[0] = 0; g_errq = 0; }     /* the real one formats and DRAINS the queue: while (ERR_get_error() != 0) */
 
 /* BIO flag ghost (the BIO object itself is OpenSSL's) */
 static int g_bio_flags;
@@ -253,6 +259,7 @@ int main(void)
 	}
 #endif
     }
+    CHECK(g_errq == 0, "C07: the thread's OpenSSL error queue is empty again when the call returns: entries left behind by one peer's garbage would make the next SSL_read/SSL_write of ANY other connection in this thread look like a protocol error (EPROTO, connection lost)");
     check_inv();
     return 0;
 }
